@@ -10,10 +10,10 @@ import (
 
 func init() {
 	register(&Property{
-		ID:  "C16",
-		Run: runC16,
+		ID:          "C16",
+		Run:         runC16,
 		Explanation: "v1 Stop/cancel completes: for each of the v1 goroutine entries (priority, join and Simple main, the Simple handler, the Simple graceful-stop helper) the checker enumerates every potentially blocking operation reachable from it (select, plain send/receive, Sleep, WaitGroup.Wait, Break/Stop/GracefulStop of a sub-discipline, dynamic calls) and requires it to be a select that contains every stop signal of its goroutine or one of the enumerated bounded idioms (S1); decomposes every CFG cycle into strongly connected components and requires each to have a bounded trip count or a stop exit that leaves the component (S2); checks the order in which the entry's deferred calls run (S4-S6) and that no output write is reachable from a deferred call. The subsequence clause (S7) is decided by the C02 rules in their v1 form.",
-		NotDecided: []string{"the bound in real time (only that every wait is stop-aware and every loop leaves on stop)"},
+		NotDecided:  []string{"the bound in real time (only that every wait is stop-aware and every loop leaves on stop)"},
 	})
 }
 
@@ -431,7 +431,7 @@ func c16routine(c *Ctx, rt *Routine) {
 	}
 	// Simple-specific: S5/S6 when the entry spawns children
 	spawns := false
-	for _, b := range fn.Blocks {
+	for _, b := range rt.routineBlocks() {
 		for _, in := range b.Instrs {
 			if _, ok := in.(*ssa.Go); ok {
 				spawns = true
@@ -478,7 +478,7 @@ func c16routine(c *Ctx, rt *Routine) {
 		}
 		r.Check(len(bad6) == 0, "S6", ekey+"#order", p.Pos(fn.Pos()), "cancel before wg.Wait before Complete", strings.Join(bad6, "; ")+" (run order: "+desc+")")
 		// wg.Add(1) immediately dominates each go; child defers wg.Done first
-		for _, b := range fn.Blocks {
+		for _, b := range rt.routineBlocks() {
 			for i, in := range b.Instrs {
 				g, ok := in.(*ssa.Go)
 				if !ok {
@@ -629,7 +629,7 @@ func handleCtxProblem(p *Prog, rt *Routine, in ssa.Instruction) string {
 		if typeShort(a.Type()) != "context.Context" {
 			continue
 		}
-		if a != ssa.Value(ctxPar) {
+		if a != ssa.Value(ctxPar) && p.originOf(a, 0) != ssa.Value(ctxPar) {
 			return "Handle is given " + p.Sym(a).String() + " instead of the handler's own context (the one the parent cancels on Stop): a Handle call that honours its context is never interrupted, wg.Wait() never returns and Stop() hangs with the handler goroutine alive"
 		}
 	}
